@@ -146,6 +146,22 @@ func init() {
 				}
 				hist(nil)
 			}
+			// "concatenation twins" in one key section: chord texts that read alike once separators are dropped or that differ in
+			// one sign only (A_b9 / Ab_9, C_#5 / C#_5, D♯ / D♭ / D# / Db, 1_7 / 17): each keeps its own meaning
+			for ti, tw := range []struct{ key, text string }{
+				{"C", "C[1] A_b9[1] Dm7[1] Ab_9[1] G_7[1] C[1] C_#5[1] C#_5[1]"},
+				{"F", "F[1] Bb_7[1] B_b7[1] Bb_b7[1] B_7[1] F[1]"},
+				{"C", "C[1] D♯dim[1] D♭[1] D#dim[1] Db[1] D♯dim[1] E♭[1] G♯[1] Eb[1] G#[1]"},
+				{"C", "C[1] F♯m[1] G♭[1] F#m[1] Gb[1] A♯[1] A♭[1] A♯/D♭[1] A♭/D♯[1]"},
+				{"", "C[1] E♭[1] E♯[1] A♭/E♭[1] A♯/E♯[1] Ab/Eb[1]"},
+			} {
+				cases = append(cases, Case{"syltext": tw.text, "key": tw.key})
+				_ = ti
+			}
+			for _, t := range []string{"1_7[1] 17[1] 1_6[1] 16[1] 1_9[1] 19[1] 2_7[1] 27[1] 1_7[1]", "1b_9[1] 1_b9[1] 1#_5[1] 1_#5[1] 1b_9[1]", "1/3[1] 13[1] 1_3[1] 1/3b[1] 1_3b[1]",
+				"3♭[1] 3♯[1] 3b[1] 3#[1] 3♭m/5♯[1]"} {
+				cases = append(cases, Case{"syltext": t, "key": "", "mode": "degree"})
+			}
 			// long key histories: hundreds of announcements over many distinct keys, with a root that is written once at the start
 			// and again only after exactly 255 / 256 / 257 / 512 announcements, and returns to keys left long ago (whatever a
 			// converter remembers per key, per root or per generation must still be right then)
@@ -212,7 +228,11 @@ func init() {
 					"terminated": !whole.TimedOut}}
 			}
 			if t := cs(k, "syltext"); t != "" {
-				r, _ := convRec(c, "syllable", cs(k, "key"), t+"\n")
+				mode := "syllable"
+				if cs(k, "mode") != "" {
+					mode = cs(k, "mode")
+				}
+				r, _ := convRec(c, mode, cs(k, "key"), t+"\n")
 				return []Rec{{"kind": "syl", "sub": "syl", "x": r}}
 			}
 			var p []PItem
